@@ -69,7 +69,7 @@ def rand_steps(rng, cfg, git):
         if r < 0.30:
             k = ("snapshot", rng.random() < 0.2, rng.random() < 0.15)
         elif r < 0.62:
-            mode = rng.choice(["full", "full", "full", "files", "files-all", "warn-only-ff", "subdir"] + (["diff", "staged"] if git else []))
+            mode = rng.choice(["full", "full", "full", "files", "files-all", "warn-only-ff", "subdir", "report-json", "html", "html-report"] + (["diff", "staged"] if git else []))
             k = ("check", mode)
         elif r < 0.80:
             since = None
@@ -217,6 +217,11 @@ def run_sequence(case, exe):
                     args += ["--diff", "HEAD~1" if rng.random() < 0.5 else "HEAD"]
                 elif mode == "staged":
                     args += ["--staged"]
+                # every flag that makes `check` build project statistics (needs_stats) besides auto_snapshot_on_check
+                if mode in ("report-json", "html-report"):
+                    args += ["--report-json", "out-report.json"]
+                if mode in ("html", "html-report"):
+                    args[args.index("json")] = "html"
                 o["rc"], o["out"], o["err"] = pr.run(args, now)
                 processed, failed = None, False
                 try:
@@ -225,7 +230,13 @@ def run_sequence(case, exe):
                     failed = any(r["status"] == "failed" for r in j["results"] if "stats" in r)
                 except Exception:
                     pass
-                o["pfiles"] = pr.pfiles(processed if processed is not None else set(), sub)
+                if mode in ("html", "html-report"):
+                    # no JSON report on stdout: an unrestricted run processed every file; the verdict is the exit code
+                    o["pfiles"], failed = pr.pfiles(None), o["rc"] != 0
+                    processed = processed if processed is not None else set()
+                    o["out"] = o["out"][:200]
+                else:
+                    o["pfiles"] = pr.pfiles(processed if processed is not None else set(), sub)
                 ff = mode == "warn-only-ff" or bool(case["cfg"].get("fail_fast"))
                 partial = mode in ("files", "files-all", "diff", "staged") or (ff and failed)
                 o["partial"] = partial
@@ -432,8 +443,49 @@ def ff_directed_case(rng):
     return {"cfg": cfg, "git": False, "steps": steps, "seed": rng.randrange(1 << 30), "profile": "debug", "tag": "ff-directed"}
 
 
+def future_directed_case(rng):
+    """A history whose newest entries are stamped in the future of the clock (the clock stepped back): --since D must
+    select the newest entry at or before now - D, whatever lies ahead of now."""
+    cfg = {"auto": rng.random() < 0.5, "exclude": False, "rule": False, "max_lines": 50, "fail_fast": False}
+    t = rng.choice([100000, 1_700_000_000])
+    d = rng.choice([60, 500, 3600])
+    steps = [{"now": t, "edit": None, "cmd": ("snapshot", True, False)},
+             {"now": t + 4 * d // 5, "edit": "append", "cmd": ("snapshot", True, False)},
+             {"now": t + 2 * d, "edit": "add", "cmd": ("snapshot", True, False)},
+             {"now": t + 3 * d, "edit": "append", "cmd": ("snapshot", True, False)},
+             # clock back: now - D lies between the first and the second entry, latest - D beyond the second
+             {"now": t + d + d // 5, "edit": "append", "cmd": ("trend", "%ds" % d)},
+             {"now": t + d + d // 5, "edit": None, "cmd": ("trend", None)},
+             {"now": t + d - 1, "edit": None, "cmd": ("trend", "%ds" % d)},
+             {"now": t + d, "edit": None, "cmd": ("trend", "%ds" % d)},
+             {"now": max(0, t - 10), "edit": None, "cmd": ("trend", "1s")},
+             {"now": t + 2 * d, "edit": None, "cmd": ("trend", "%ds" % (d // 2))},
+             {"now": t + d + d // 5, "edit": None, "cmd": ("snapshot", False, False)},
+             {"now": t + d + d // 5, "edit": None, "cmd": ("history", None)}]
+    return {"cfg": cfg, "git": False, "steps": steps, "seed": rng.randrange(1 << 30), "profile": "debug", "tag": "future-stamped"}
+
+
+def stats_flags_directed_case(rng):
+    """check WITHOUT auto_snapshot_on_check but with the flags that make it build project statistics (--report-json,
+    --format html): read-only for the history, also when retention would drop entries."""
+    cfg = {"auto": False, "exclude": False, "rule": False, "max_lines": 50, "fail_fast": False,
+           "max_entries": rng.choice([1, 2, None]), "max_age_days": rng.choice([None, 1]), "min_interval_secs": rng.choice([None, 0])}
+    cfg = {k: v for k, v in cfg.items() if v is not None}
+    t = rng.choice([1000, 1_700_000_000])
+    steps = [{"now": t, "edit": None, "cmd": ("snapshot", True, False)},
+             {"now": t + 100, "edit": "append", "cmd": ("snapshot", True, False)},
+             {"now": t + 200, "edit": None, "cmd": ("check", "report-json")},
+             {"now": t + 300, "edit": "append", "cmd": ("check", "html")},
+             {"now": t + 3 * DAY, "edit": None, "cmd": ("check", "html-report")},
+             {"now": t + 3 * DAY, "edit": None, "cmd": ("history", None)},
+             {"now": t + 3 * DAY + 5, "edit": None, "cmd": ("check", "full")}]
+    return {"cfg": cfg, "git": False, "steps": steps, "seed": rng.randrange(1 << 30), "profile": "debug", "tag": "stats-flags"}
+
+
 def make_cases(rng, n):
     cases = [ff_directed_case(rng) for _ in range(max(4, n // 12))]
+    cases += [future_directed_case(rng) for _ in range(max(4, n // 12))]
+    cases += [stats_flags_directed_case(rng) for _ in range(max(4, n // 12))]
     for i in range(n):
         huge = rng.random() < 0.08
         cfg = rand_project_cfg(rng, huge)
